@@ -67,7 +67,7 @@ def run(ctx):
                 expected=[LEN, 'let $m0 = 0'], why='len is taken once before the loop; pos starts at 0')
         ok = [x for x in rows if x.conds == [(G, True), (WR, 'Ok(_)')]]
         wb = [x for x in rows if x.conds[:2] == [(G, True), (WR, 'Err(_)')] and x.conds[-1] == ('std::io::Error::kind(%s.Err.0)' % WR, 'std::io::ErrorKind::WouldBlock')]
-        er = [x for x in rows if x.conds[:2] == [(G, True), (WR, 'Err(_)')] and x.conds[-1] == ('std::io::Error::kind(%s.Err.0)' % WR, '_')]
+        er = [x for x in rows if x.conds[:2] == [(G, True), (WR, 'Err(_)')] and x.conds[-1] == ('std::io::Error::kind(%s.Err.0)' % WR, 'not std::io::ErrorKind::WouldBlock')]
         done = [x for x in rows if x.conds == [(G, False)]]
         if r.check('rows', len(ok) == 1 and len(wb) == 1 and len(er) == 1 and len(done) == 1, site, built=[x.cond_strs() for x in rows],
                    expected='while pos < len: match stream.write(&outbuf[pos..]) {Ok(n), Err(WouldBlock), Err(other)}; then clear'):
